@@ -17,7 +17,7 @@ pub struct ReplayFile {
     /// scenarios executed one after the other in ONE fresh process (normally just one)
     pub scenarios: Vec<Scenario>,
     /// run-length encoded decision list per scenario: [thread, count]
-    pub decisions: Vec<Vec<(u8, u32)>>,
+    pub decisions: Vec<Vec<(u16, u32)>>,
     pub violation: Option<Violation>,
     pub minimised: bool,
     pub note: String,
@@ -27,8 +27,8 @@ pub struct ReplayFile {
     pub origin: Option<(u64, u64, bool)>,
 }
 
-pub fn rle(d: &[u8]) -> Vec<(u8, u32)> {
-    let mut out: Vec<(u8, u32)> = Vec::new();
+pub fn rle(d: &[u16]) -> Vec<(u16, u32)> {
+    let mut out: Vec<(u16, u32)> = Vec::new();
     for &x in d {
         match out.last_mut() {
             Some((t, n)) if *t == x => *n += 1,
@@ -38,7 +38,7 @@ pub fn rle(d: &[u8]) -> Vec<(u8, u32)> {
     out
 }
 
-pub fn unrle(d: &[(u8, u32)]) -> Vec<u8> {
+pub fn unrle(d: &[(u16, u32)]) -> Vec<u16> {
     let mut out = Vec::new();
     for &(t, n) in d {
         for _ in 0..n {
@@ -67,7 +67,7 @@ pub struct ExecOut {
     /// index of the scenario in which the violation occurred
     pub scenario_index: Option<usize>,
     pub violation: Option<Violation>,
-    pub decisions: Vec<Vec<(u8, u32)>>,
+    pub decisions: Vec<Vec<(u16, u32)>>,
     pub log_hashes: Vec<u64>,
     pub harness_error: Option<String>,
     pub trace: Vec<String>,
